@@ -38,11 +38,37 @@ def rewrite_sync(root):
         open(p, "w").write(s)
     return n
 
+MAP_EXPRS = ["m.allocations", "a.permissions", "a.tcpConnections", "allocation.tcpConnections", "m.permMap", "mgr.chanMap", "m.trMap"]
+
+def rewrite_map_loops(root):
+    """`for ... := range <known map>` -> deterministic order via simsync.Keys/Values. Returns #loops."""
+    n = 0
+    for d, dirs, fs in os.walk(root):
+        dirs[:] = [x for x in dirs if x not in ("examples", ".git", "simsync", "e2e")]
+        for f in fs:
+            if not f.endswith(".go") or f.endswith("_test.go"):
+                continue
+            p = os.path.join(d, f)
+            s = open(p).read()
+            if "internal/simsync" not in s:
+                continue
+            o = s
+            for e in MAP_EXPRS:
+                ee = re.escape(e)
+                s, c1 = re.subn(r"for _, (\w+) := range " + ee + r" \{", r"for _, \1 := range simsync.Values(" + e + ") {", s)
+                s, c2 = re.subn(r"for (\w+), (\w+) := range " + ee + r" \{", r"for _, \1 := range simsync.Keys(" + e + r") {\n\2 := " + e + r"[\1]", s)
+                s, c3 = re.subn(r"for (\w+) := range " + ee + r" \{", r"for _, \1 := range simsync.Keys(" + e + ") {", s)
+                n += c1 + c2 + c3
+            if s != o:
+                open(p, "w").write(s)
+    return n
+
 def prepare(scratch, race=False, log=None):
     """Copy /repo working tree into scratch/repo, rewrite, overlay, write sim module. Returns info dict."""
     repo = os.path.join(scratch, "repo")
     subprocess.run(["rsync", "-a", "--exclude", ".git", "--exclude", "examples", REPO + "/", repo + "/"], check=True)
     nrew = rewrite_sync(repo)
+    nmap = rewrite_map_loops(repo)
     # overlay
     ov = os.path.join(VERIF, "overlay")
     subprocess.run(["rsync", "-a", ov + "/", repo + "/"], check=True)
@@ -65,7 +91,7 @@ def prepare(scratch, race=False, log=None):
     if os.path.exists(extra):
         with open(os.path.join(sim, "go.sum"), "a") as f:
             f.write(open(extra).read())
-    return {"rewritten_mutex_decls": nrew, "repo": repo, "sim": sim}
+    return {"rewritten_mutex_decls": nrew, "rewritten_map_loops": nmap, "repo": repo, "sim": sim}
 
 def build(scratch, race=False):
     sim = os.path.join(scratch, "sim")
